@@ -51,7 +51,7 @@ impl RandomProp for RoundTrip {
         })
     }
     fn cases(env: &Env) -> u64 {
-        env.n(13 * 2500, 13 * 100_000)
+        env.n(13 * 10_000, 13 * 300_000)
     }
 }
 
@@ -76,7 +76,7 @@ impl RandomProp for RoundTripLarge {
         large_file_case(true)
     }
     fn cases(env: &Env) -> u64 {
-        env.n(13 * 6, 13 * 400)
+        env.n(13 * 20, 13 * 800)
     }
 }
 
